@@ -8,9 +8,10 @@ material, message, signature) triples the primitive accepts: exactly those produ
 import InToto.Model.Sign
 import InToto.Proofs.PipeSigs
 import InToto.Proofs.Sign
+import InToto.Proofs.Refusal
 
 namespace InToto.C04
-open InToto InToto.Schema InToto.Metadata InToto.Verify InToto.Sign InToto.PipeProofs InToto.SignProofs
+open InToto InToto.Schema InToto.Metadata InToto.Verify InToto.Sign InToto.PipeProofs InToto.SignProofs InToto.RefusalProofs
 
 /-- C04 (round trip): signing with a usable private key and then verifying with the public half
     succeeds, in both wrappers, for every reachable state — provided no earlier signature with the
@@ -84,5 +85,12 @@ theorem pae_example : pae (lit% "t/p") (lit% "{\"a\":\"é\"}") = lit% "DSSEv1 3 
 /-- verification never crashes, whatever the key material -/
 theorem verify_never_panics (W : World) (m : Md) (k : Key) : (mdVerify W m k).isPanic = false :=
   mdVerify_no_panic W m k
+
+/-- a Metablock is a plain struct: unrepresentable content can be assigned, but nothing can be signed
+    afterwards — there are no "approximate" signatures -/
+theorem unrepresentable_content_is_never_signed (W0 : Verify.World) (st : SState) (sg : TVal) (v : TVal) (k : Verify.Key)
+    (hmd : st.md = .legacy (.link v) sg) (hv : SchemaProofs.WT Schema.tyLink v) :
+    (sstep W0 (trySetFrac st).1 (.sign k)).2 ≠ "ok" :=
+  metablock_with_fraction_cannot_be_signed W0 st sg v k hmd hv
 
 end InToto.C04
